@@ -364,5 +364,6 @@ func init() {
 		Rule: "pattern sets (shared prefixes, patterns nested as suffixes/infixes, duplicates, empty pattern) over {a,b,c}, a 2-, 3- and 4-byte rune and raw bytes 0xff/0xfe, plus truncated-sequence sets; " +
 			"all texts up to length 6 over {a,b,c} for 25 hand-written sets, all texts up to 3 units for the multi-byte sets, random longer texts, keys cut out of patterns, the late-long-occurrence family, wide tries (queue growth), dense / many-irregular / many-large tries (second and third growth of the BFS queue), rebuilds, and tries without a final BuildFailureLinks (model comparison only). " +
 			"About 3 cases in 8 (histogram `dump`; all of many-large, wide, rebuild; the first four texts of every exhaustive set) also observe the BUILT STRUCTURE: every node's word, isEnd, size, number of children and fail target, read from the real trie through reflect/unsafe, compared with the model's node table and with the automaton computed from the patterns alone. " +
+			"Very long patterns (family very-long-patterns, Run/C107.v): tries with one or two patterns of 65530..70200 bytes (1-, 2-, 3-byte runes; the second pattern a prefix, an extension or a late branch of the first), keys/texts cut out of the pattern by position (empty key, full pattern, long prefix, branching point, pattern twice); every returned string is compared as (byte length, checksum) with the specification evaluated on strings given as functions of the position; the same shapes with 100..300 runes also run as ordinary cases through the table model. " +
 			"Non-trivial: the trie ends with BuildFailureLinks and some pattern occurs in the text or has the text as a prefix"})
 }
